@@ -209,7 +209,11 @@ func c18RPC(ev *vlib.Evidence, idx int) {
 					host = h
 				}
 			}
-			active = append(active, fmt.Sprintf("enode://%s@%s:30303", p.NodeID, host))
+			uri := fmt.Sprintf("enode://%s@%s:30303", p.NodeID, host)
+			if r.Intn(6) == 0 {
+				uri = vlib.Pick(r, "enode://"+p.NodeID+"@", "enode://"+p.NodeID, p.NodeID)
+			}
+			active = append(active, uri)
 		case 2:
 			invalid = append(invalid, vlib.Pick(r, p.NodeID, "enode://"+p.NodeID+"@198.51.100.77:30303"))
 		}
